@@ -46,6 +46,7 @@ func genSched(rng *rand.Rand, tier string, stalls bool) SchedKnobs {
 			k.Disabled = append(k.Disabled, allYieldPoints[rng.Intn(len(allYieldPoints))])
 		}
 	}
+	k.AutoOff = rng.Intn(3) == 0 // autoyield builds only: a third of the runs keep the coarser, hand-placed granularity
 	if stalls && rng.Intn(3) == 0 {
 		k.StallMax = 1 + rng.Intn(5)
 		k.StallDelta = time.Duration(1+rng.Intn(20)) * time.Millisecond
@@ -111,4 +112,59 @@ var requestHoldPoints = []string{"router.serve", "router.routed", "service.gate"
 // the request path until a step of a command has happened.
 func holdOp(rng *rand.Rand, o *Op, until []string) {
 	o.Hold = &Hold{At: requestHoldPoints[rng.Intn(len(requestHoldPoints))], For: until[rng.Intn(len(until))], N: 1 + rng.Intn(2), Max: time.Duration(500+rng.Intn(2500)) * time.Millisecond}
+}
+
+// addCensus appends an actor that waits until every command of the scenario
+// has returned, lets three probe intervals pass, records what is installed
+// (census) and then watches two more intervals. Oracle: checkOrphanProbes.
+func addCensus(sc *Scenario) {
+	total := 0
+	for _, a := range sc.Actors {
+		for _, o := range a.Ops {
+			switch o.Kind {
+			case "request", "sleep", "observe", "census", "certs":
+			default:
+				total++
+			}
+		}
+	}
+	iv := sc.HC.Interval + sc.HC.Timeout
+	sc.Actors = append(sc.Actors, ActorSpec{Name: "zcensus", Ops: []Op{
+		{Kind: "sleep", After: "cmd.ret", AfterN: total, Delay: 60 * time.Second},
+		{Kind: "sleep", Delay: 3 * iv},
+		{Kind: "census", Tag: "census"},
+		{Kind: "sleep", Delay: 5 * iv / 2},
+	}})
+}
+
+// checkOrphanProbes: once every command has returned and things have settled,
+// every target that is still probed belongs to a service that is installed.
+func checkOrphanProbes(r *RunResult, prop string) []Violation {
+	o := r.W.ObsByTag("census", "")
+	if o == nil || o.StErr != "" {
+		return nil
+	}
+	for _, c := range r.W.Cmds {
+		if c.Ret == 0 || c.Ret > o.Seq {
+			return nil // a command was still running: not quiescent
+		}
+	}
+	installed := map[string]bool{}
+	for _, s := range o.State {
+		for _, t := range s.Active {
+			installed[t] = true
+		}
+		for _, t := range s.Rollout {
+			installed[t] = true
+		}
+	}
+	r.Probes["census_taken"]++
+	for i := range r.H.Events {
+		e := &r.H.Events[i]
+		if e.Seq > o.Seq && isProbeSend(e) && !installed[e.Target] {
+			return []Violation{{Prop: prop, Clause: "probe-to-target-of-no-installed-service",
+				Msg: fmt.Sprintf("every command had returned by #%d and the state file lists targets %v, but %s was still probed at #%d (t=%v): a health check was left running on behalf of nothing", o.Seq, sortedKeys(installed), e.Target, e.Seq, e.T)}}
+		}
+	}
+	return nil
 }
